@@ -74,6 +74,9 @@ func checkDefs() map[string]*CheckDef {
 					mc("mc-n2-all-points", "VerifC01", map[string]int{"N": 2, "POINTS": 7}, "start ok", "early reference served"),
 					mc("mc-n3-single", "VerifC01", map[string]int{"N": 3, "POINTS": 1}, "start ok"),
 					mc("wrap-n2", "VerifC03", map[string]int{"N": 2, "POINTS": 5}, "start ok", "wrapped"),
+					mc("lookups-from-init-n2", "VerifC01", map[string]int{"N": 2, "POINTS": 5, "LOOKUP": 1}, "start ok", "lookup from Init"),
+					mc("lookups-from-init-n3", "VerifC01", map[string]int{"N": 3, "POINTS": 1, "LOOKUP": 1}, "start ok", "lookup from Init"),
+					mc("wrap-n2-lookups-from-init", "VerifC03", map[string]int{"N": 2, "POINTS": 1, "LOOKUP": 1}, "start ok", "wrapped"),
 				}
 				if tier == "thorough" {
 					r = append(r, mc("mc-n3-single+slice", "VerifC01", map[string]int{"N": 3, "POINTS": 5}, "start ok"))
@@ -104,6 +107,7 @@ func checkDefs() map[string]*CheckDef {
 				r := []RunSpec{
 					mc("wrap-n2", "VerifC03", map[string]int{"N": 2, "POINTS": 5}, "start ok", "start failed", "wrapped"),
 					mc("wrap-n3-single", "VerifC03", map[string]int{"N": 3, "POINTS": 1}, "start ok", "wrapped"),
+					mc("wrap-n2-lookups-from-init", "VerifC03", map[string]int{"N": 2, "POINTS": 1, "LOOKUP": 1}, "start ok", "wrapped"),
 				}
 				if tier == "thorough" {
 					r = append(r, mc("wrap-n2-all-points", "VerifC03", map[string]int{"N": 2, "POINTS": 7}, "start ok", "wrapped"))
@@ -118,6 +122,7 @@ func checkDefs() map[string]*CheckDef {
 				r := []RunSpec{
 					{Name: "step-lemmas", Pkg: ioc + "/container/support", Entry: "VerifC04Step", MustCover: []string{"creation failed", "creation succeeded", "op lookup", "op publish"}},
 					mc("histories-n2", "VerifC04B", map[string]int{"N": 2, "POINTS": 1, "FAULTS": 1, "LOOKUPS": 2, "LAZY": 1}, "start failed", "lookup after failure reports an error"),
+					mc("nested-creations-from-init", "VerifC05", map[string]int{"N": 2, "POINTS": 1, "LAZY": 1, "LOOKUP": 1, "BARE": 1}, "start ok"),
 				}
 				if tier == "thorough" {
 					r = append(r, mc("histories-n2-slice", "VerifC04B", map[string]int{"N": 2, "POINTS": 5, "FAULTS": 2, "LOOKUPS": 2, "LAZY": 1}, "start failed"))
@@ -132,6 +137,7 @@ func checkDefs() map[string]*CheckDef {
 				r := []RunSpec{
 					mc("mc-n2-lazy", "VerifC05", map[string]int{"N": 2, "POINTS": 7, "LAZY": 1}, "start ok", "acyclic edge", "lazy component not needed"),
 					mc("mc-n3-single-lazy", "VerifC05", map[string]int{"N": 3, "POINTS": 1, "LAZY": 1}, "start ok", "acyclic edge"),
+					mc("lookups-and-declining-processor", "VerifC05", map[string]int{"N": 2, "POINTS": 5, "LAZY": 1, "LOOKUP": 1, "PROC0": 1}, "start ok", "acyclic edge"),
 				}
 				if tier == "thorough" {
 					r = append(r, mc("mc-n3-lazy", "VerifC05", map[string]int{"N": 3, "POINTS": 5, "LAZY": 1}, "start ok"))
